@@ -12,25 +12,27 @@ From TL Require Import Lib.Base Lib.GenTypes Model.CfgTypes Gen.CfgToolGen Model
      Proofs.CfgLines Proofs.CfgMergeMain Proofs.CfgMergeText Proofs.CfgMergeSpec Proofs.CfgInitMain Proofs.CfgCliProofs.
 From Coq Require Import ZArith.
 
-(* 1. init-config without --force, every preset, every existing file of the subset, every quirk vector with the
-      three merge flags off: the result meets the whole specification, and a second run changes nothing. *)
+(* 1. init-config without --force, every preset, every existing file of the subset, every quirk vector with the two
+      remaining merge flags off: the result meets the whole specification, and a second run changes nothing.
+      (The "missing section" test is the one read from the repaired source - Gen.missing_by_normalised_key - so no
+      guard on q_missing_by_raw_key is needed any more.) *)
 Theorem C20_init_config_spec : forall q preset reps E,
-  q_missing_by_raw_key q = false -> q_append_to_flow_root q = false -> q_insert_mid_entry q = false ->
+  q_append_to_flow_root q = false -> q_insert_mid_entry q = false ->
   lookup preset presets = Some reps -> struct_r (analyse E) = true ->
   let R := result_file E (init_config q preset E) in
   spec_ok reps E R (result_file R (init_config q preset R)) = true.
-Proof. intros q preset reps E H1 H2 H3 Hl Hs. exact (init_config_spec q preset reps E Hl Hs (or_introl H1) (or_introl H2) (or_introl H3)). Qed.
+Proof. intros q preset reps E H2 H3 Hl Hs. exact (init_config_spec q preset reps E Hl Hs (or_introl H2) (or_introl H3)). Qed.
 Print Assumptions C20_init_config_spec.
 
 (* 1'. (partial) the same for ANY quirk vector - in particular the one claimed for the current tree - on files that
-      avoid the three defect classes: no key is a re-spelled linter section, the root is block style, and the
-      GLOBAL SETTINGS banner (if any) stands at an entry boundary. *)
+      avoid the two remaining defect classes: the root is block style, and the GLOBAL SETTINGS banner (if any) stands
+      at an entry boundary.  Keys re-spelled with underscores are covered (see C20_nonvacuous). *)
 Theorem C20_init_config_partial : forall q preset reps E,
-  spelling_ok E = true -> is_block E = true -> marker_ok E = true ->
+  is_block E = true -> marker_ok E = true ->
   lookup preset presets = Some reps -> struct_r (analyse E) = true ->
   let R := result_file E (init_config q preset E) in
   spec_ok reps E R (result_file R (init_config q preset R)) = true.
-Proof. intros q preset reps E H1 H2 H3 Hl Hs. exact (init_config_spec q preset reps E Hl Hs (or_intror H1) (or_intror H2) (or_intror H3)). Qed.
+Proof. intros q preset reps E H2 H3 Hl Hs. exact (init_config_spec q preset reps E Hl Hs (or_intror H2) (or_intror H3)). Qed.
 Print Assumptions C20_init_config_partial.
 
 (* 2. what the specification says, bit by bit: valid YAML whose entries are literally old or template entries;
@@ -71,7 +73,7 @@ Print Assumptions C20_get_leaves_file.
 
 Theorem C20_accepted_set_writes_valid : forall q ex f k t,
   o_rc (step q ex f (CSet k t)) = 0 ->
-  exists c, o_file (step q ex f (CSet k t)) = Some c /\ valid c = true /\ lookup (ckey q k) c = Some (convert t).
+  exists c, o_file (step q ex f (CSet k t)) = Some c /\ valid c = true /\ lookup (ckey_set q k) c = Some (convert t).
 Proof. exact accepted_set_writes_valid. Qed.
 Print Assumptions C20_accepted_set_writes_valid.
 
@@ -97,36 +99,30 @@ Theorem C20_documented_boundaries :
 Proof. exact documented_boundaries. Qed.
 Print Assumptions C20_documented_boundaries.
 
-(* 5. ... and, with the key flag off (or for keys without a hyphen), the written file loads again, validates, and
-      `config get` prints the accepted value. *)
-Theorem C20_accepted_set_reloads : forall q ex f k t, q_cli_raw_key q = false \/ plain_key k = true ->
+(* 5. ... and, for every quirk vector (the commands normalise the key like the loader does, as read from the repaired
+      source), the written file loads again, validates, and `config get` prints the accepted value. *)
+Theorem C20_accepted_set_reloads : forall q ex f k t,
   o_rc (step q ex f (CSet k t)) = 0 ->
   exists c c', o_file (step q ex f (CSet k t)) = Some c /\ load ex (Some c) = Some c' /\ valid c' = true
                /\ lookup (norm k) c' = Some (convert t).
 Proof. exact accepted_set_reloads. Qed.
 Print Assumptions C20_accepted_set_reloads.
 
-Theorem C20_set_then_get : forall q ex f k t, q_cli_raw_key q = false \/ plain_key k = true ->
+Theorem C20_set_then_get : forall q ex f k t,
   o_rc (step q ex f (CSet k t)) = 0 ->
   let f' := o_file (step q ex f (CSet k t)) in
   step q ex f' (CGet k) = Build_obs 0 (Some (show (convert t))) f'.
 Proof. exact set_then_get. Qed.
 Print Assumptions C20_set_then_get.
 
-(* 6. histories: for every sequence of set / get / reset commands from every initial file (absent, valid, invalid;
-      --config given or not), every step of the model trace meets the trace specification: rejected sets and gets leave
-      the file alone, accepted sets leave a file that validates after loading and holds the value, and a get of a key
-      set earlier (no later set of it, no reset) prints that value. *)
-Theorem C20_history : forall q ex cs f, q_cli_raw_key q = false ->
+(* 6. histories: for every quirk vector, every sequence of set / get / reset commands (hyphenated keys included) from every
+      initial file (absent, valid, invalid; --config given or not), every step of the model trace meets the trace
+      specification: rejected sets and gets leave the file alone, accepted sets leave a file that is valid AS DOCUMENTED
+      after loading and holds the value, and a get of a key set earlier (no later set of it, no reset) prints that value. *)
+Theorem C20_history : forall q ex cs f,
   forallb (fun b => b) (spec_trace [] f cs (run q ex f cs)) = true.
-Proof. intros q ex cs f H. exact (history_spec_fresh q ex cs f (cmd_cond_flag_off q cs H)). Qed.
+Proof. exact history_spec_fresh. Qed.
 Print Assumptions C20_history.
-
-(* 6'. (partial) for any quirk vector, on histories whose keys contain no hyphen *)
-Theorem C20_history_partial : forall q ex cs f, forallb cmd_plain cs = true ->
-  forallb (fun b => b) (spec_trace [] f cs (run q ex f cs)) = true.
-Proof. intros q ex cs f H. exact (history_spec_fresh q ex cs f (cmd_cond_plain q cs H)). Qed.
-Print Assumptions C20_history_partial.
 
 (* non-vacuity: an admissible existing file with comments, both spellings, a flow value and a column-0 sequence, from
    which nine sections are missing; the merge keeps `magic_numbers` in effect under the ideal vector *)
